@@ -73,15 +73,18 @@ func build(w *sim.World) {
 		rep := simrt.Choose(2) == 1
 		dt := lorawan.DwellTime(simrt.Choose(2))
 		nOps := simrt.Choose(1 + 40*sim.Scale)
+		deep := false
 		if simrt.Choose(48) == 1 {
-			// now and then a long-lived band: hundreds of operations, channel
-			// tables that outgrow 16-, 64-, 96- and 255-entry assumptions
-			nOps = 120 + simrt.Choose(280)
+			// now and then a long-lived band: hundreds of operations, mostly
+			// additions, channel tables that outgrow 16-, 64-, 96-, 255- and
+			// 256-entry assumptions (observed after one operation in six)
+			nOps = 150 + simrt.Choose(650)
+			deep = true
 			simrt.Count(cDeep)
 		}
 		sub := simrt.Raw()
 		w.Notef("task %d: %s repeater=%v dwell=%d, %d operations", i, name, rep, dt, nOps)
-		w.Spawn(fmt.Sprintf("operator%d", i), func() { operator(name, rep, dt, nOps, sub) })
+		w.Spawn(fmt.Sprintf("operator%d", i), func() { operator(name, rep, dt, nOps, sub, deep) })
 	}
 }
 
@@ -163,14 +166,16 @@ type state struct {
 	steps      int
 	judgeEnc   bool // whether a refusal by the MAC layer is a violation for the value at hand
 	shared     bool // several tasks read this band at the same time
+	deep       bool // a long history, mostly additions
 }
 
-func operator(name band.Name, rep bool, dt lorawan.DwellTime, nOps int, sub uint64) {
+func operator(name band.Name, rep bool, dt lorawan.DwellTime, nOps int, sub uint64, deep bool) {
 	r := sim.NewRand(sub)
 	st := newState(name, rep, dt)
 	if st == nil {
 		return
 	}
+	st.deep = deep
 	st.observe(r)
 	st.closure(r)
 	for k := 0; k < nOps; k++ {
@@ -179,6 +184,9 @@ func operator(name band.Name, rep bool, dt lorawan.DwellTime, nOps int, sub uint
 		}
 		sim.Op()
 		st.op(r)
+		if deep && r.Intn(6) != 0 && k != nOps-1 {
+			continue
+		}
 		st.observe(r)
 		if r.Intn(3) == 0 {
 			st.closure(r)
@@ -299,7 +307,7 @@ func (st *state) op(r *sim.Rand) {
 		return
 	}
 	switch k := r.Intn(10); {
-	case k < 4:
+	case k < 4 || (st.deep && k < 8):
 		// AddChannel
 		simrt.Count(cAdd)
 		var f uint32
